@@ -125,7 +125,7 @@ let run_case line =
           let sz = List.fold_left (fun a f -> let (asts, g') = analyse_math !gg f in gg := g';
                                      a + List.fold_left (fun a x -> a + ast_size x) 0 asts) 0 fs in
           (OAnalyse (fs, valid), Printf.sprintf " ast=%d" (if valid then sz else 0))
-      | "I" -> let k = next_int () in let docs = times k tree in (OResolve docs, "")
+      | "I" -> let k = next_int () in let docs = times k tree in (OResolve (docs, []), "")
       | "F" -> let fs = forests () in (OFlatten fs, "")
       | "O" -> (OOther, "")
       | "C" -> (OConvert, "")
